@@ -33,6 +33,11 @@ def programs(tier):
                     # consecutive filters (squashing) and a second consumer of the filtered frame
                     progs.append(Program(f"(lambda Z: Z[Z.{mid.names[0]} != 0])({text})", [srcL], ordered=False, family="F03", note=f"{'/'.join(mid.ops)}/pred-{tag}/squash"))
                     progs.append(Program(f"(lambda Z: Z[Z.{mid.names[0]} != 0])({text})", [srcLd], ordered=False, family="F03", note=f"{'/'.join(mid.ops)}/pred-{tag}/squash-dupindex"))
+        # predicates that are not row-wise (cumulative / shifted values of the filtered frame) must not be squashed or moved
+        for inner in ("Y[Y.a > 0]", "Y[Y.b.isna()]"):
+            for outer in ("Z[Z.c.cumsum() > 2]", "Z[Z.a.shift(1) > 0]", "Z[Z.c > Z.c.sum() - 3]", "Z[Z.c.cummax() > Z.a]"):
+                progs.append(Program(f"(lambda Z: {outer})((lambda Y: {inner})(L))", [srcL], ordered=False, family="F03", note="squash/non-rowwise-predicate"))
+        progs.append(Program("dx.concat([L, (lambda Y: Y[((Y.a > 0) & (Y.b < 2)) | ((Y.a > 0) & (Y.e > 5))])(R)])", [srcL, srcR], ordered=False, family="F03", note="concat/or-filter-on-second-input", env_globals={"dx": dx}))
         # filters on the former index after reset_index
         for p in ("Y['index'] > 1", "(Y['index'] > 0) & (Y.a < 2)", "Y['index'].isin([0, 2])"):
             progs.append(Program(f"(lambda Y: Y[{p}])(L.reset_index())", [srcL], ordered=False, family="F03", note="reset_index/pred-index"))
@@ -54,6 +59,17 @@ def programs(tier):
                     if tier == "quick" and vtag != "sole" and ptag not in ("left-only", "right-only", "both"):
                         continue
                     progs.append(Program(text, [srcL, srcR], ordered=False, family="F03", note=f"merge-{how}/{ptag}/{vtag}", env_globals={"dx": dx}))
+            # a non-key column present on both sides with one empty suffix: the plain name belongs to one side only
+            for suf, plain in ((("", "_r"), "left"), (("_l", ""), "right"), (("_l", "_r"), None)):
+                names = {"left": "b" + suf[0], "right": "b" + suf[1]}
+                for side in ("left", "right"):
+                    col = names[side]
+                    for p in (f"M.{col} < 2", f"M.{col}.isna()", f"(M.{col} != 0) & (M.a > 0)"):
+                        progs.append(Program(f"(lambda M: M[{p}])(L.merge(R, on='a', how={how!r}, suffixes={suf!r}))", [srcL, srcR], ordered=False, family="F03",
+                                             note=f"merge-{how}/suffix{suf}/{side}"))
+            # a rewritten (OR-factored) filter on the *second* input of a merge / concat
+            progs.append(Program(f"L.merge((lambda Y: Y[((Y.a > 0) & (Y.b < 2)) | ((Y.a > 0) & (Y.e > 5))])(R), on='a', how={how!r})", [srcL, srcR], ordered=False, family="F03", note=f"merge-{how}/or-filter-on-right-input"))
+            progs.append(Program(f"(lambda Y: Y[((Y.a > 0) & (Y.b < 2)) | ((Y.a > 0) & (Y.c > 5))])(L).merge(R, on='a', how={how!r})", [srcL, srcR], ordered=False, family="F03", note=f"merge-{how}/or-filter-on-left-input"))
             # suffix collision variants: the predicate column is renamed by suffixing on one side only
             progs.append(Program(f"(lambda M: M[M.c_x > 0])(L.merge(R.rename(columns={{'e': 'c'}}), on='a', how={how!r}))", [srcL, srcR], ordered=False, family="F03", note=f"merge-{how}/suffix-left-renamed"))
             progs.append(Program(f"(lambda M: M[M.c_y > 0])(L.merge(R.rename(columns={{'e': 'c'}}), on='a', how={how!r}))", [srcL, srcR], ordered=False, family="F03", note=f"merge-{how}/suffix-right-renamed"))
